@@ -185,7 +185,7 @@ PROPS["C20"] = {
         {"bin": "hv", "args": ["c20"]},
         {"bin": "hvt", "args": ["c20"]},
     ],
-    "min": {"quick": {"rejecting_condition_returns_and_rebinds_ok": 5, "fd_exhaustion_survived_and_serving": 10, "fd_exhaustion_signal_in_shortage_returns": 1, "fd_shortages_driven": 14, "scenarios": 180, "returns_observed": 180, "rebinds_ok": 180, "in_flight_responses_complete": 150},
+    "min": {"quick": {"rejecting_condition_returns_and_rebinds_ok": 5, "fd_exhaustion_survived_and_serving": 10, "fd_exhaustion_signal_in_shortage_returns": 1, "fd_shortages_driven": 14, "served_after_resets_in_the_accept_queue": 40, "connections_reset_before_accept": 30, "scenarios": 180, "returns_observed": 180, "rebinds_ok": 180, "in_flight_responses_complete": 150},
             "thorough": {"rejecting_condition_returns_and_rebinds_ok": 5, "fd_exhaustion_survived_and_serving": 1, "scenarios": 1400}},
     "assumptions": [],
     "level_text": "Real Apps are started on loopback, put into generated traffic states (idle, half-sent, running handlers, large responses, WebSockets, occupied pools), signalled at varied instants with delays injected at the accept-loop failpoints, and observed: time until run returns, re-bind of the port, completeness of every in-flight response whose handler had started before the signal; plus connection conditions that are slow or reject everything, and transient descriptor exhaustion, once or several times in a row (run must not return before the signal, the server serves again, and a signal sent inside a shortage is honoured within 2 s).",
